@@ -35,6 +35,7 @@ static void w2(void *c) { (void)c; atomic_store(&ran2, 1); }
 static void wb(void *c) { (void)c; atomic_store(&b_saw_x2, atomic_load(&ran2)); atomic_store(&b_ran, 1); }
 static int serial_q;
 static void *u_main(void *q) { if (serial_q) dispatch_async_f((dispatch_queue_t)q, NULL, w1); else dispatch_barrier_async_f((dispatch_queue_t)q, NULL, w1); return NULL; }
+static void *releaser(void *a) { (void)a; usleep(300000); atomic_store(&release_u, 1); return NULL; }
 static uint64_t rd(void) { return *(volatile uint64_t *)&dl->dq_state; }
 
 int main(int argc, char **argv) {
@@ -57,14 +58,15 @@ int main(int argc, char **argv) {
 	atomic_store(&release_o, 1);
 	for (int k = 0; k < 20000 && rd() != idle; k++) usleep(50);
 	uint64_t st_idle = rd();
+	pthread_t rt; pthread_create(&rt, NULL, releaser, NULL);   // U goes on 300 ms later: a correct library makes b wait for it
 	if (serial_q) dispatch_sync_f(q, NULL, wb); else dispatch_barrier_sync_f(q, NULL, wb);
-	int saw = atomic_load(&b_saw_x2);
-	atomic_store(&release_u, 1);
+	int saw = atomic_load(&b_saw_x2), u_released_at_b = atomic_load(&release_u);
+	pthread_join(rt, NULL);
 	pthread_join(u_thread, NULL);
 	for (int k = 0; k < 100000 && !(atomic_load(&ran1) && atomic_load(&ran2)); k++) usleep(50);
 	printf("OVERTAKE %s o_held=%d u_held=%d idle=%" PRIu64 " state_locked=%" PRIu64 " state_after_x2=%" PRIu64 " state_before_sync=%" PRIu64
-			" b_ran=%d b_ran_before_x2=%d ran0=%d ran1=%d ran2=%d\n", serial_q ? "serial" : "concurrent",
-			atomic_load(&o_held), atomic_load(&u_held), idle, st_locked, st_x2, st_idle, atomic_load(&b_ran), !saw,
+			" b_ran=%d b_ran_before_x2=%d u_released_when_b_returned=%d ran0=%d ran1=%d ran2=%d\n", serial_q ? "serial" : "concurrent",
+			atomic_load(&o_held), atomic_load(&u_held), idle, st_locked, st_x2, st_idle, atomic_load(&b_ran), !saw, u_released_at_b,
 			atomic_load(&ran0), atomic_load(&ran1), atomic_load(&ran2));
 	return 0;
 }
